@@ -132,6 +132,9 @@ type Layout struct {
 	// HeaderNL: the name of a named operation is the last thing on its line (variable definitions,
 	// directives and the selection set start on the next one)
 	HeaderNL bool `json:"header_nl,omitempty"`
+	// FragSplit (not in single line mode): the keyword of a fragment definition is followed by a blank
+	// (1) or a comment (2) and the name stands, far to the right, on the next line
+	FragSplit int `json:"frag_split,omitempty"`
 }
 
 // Span is the region of a selection's own tokens (alias/name/arguments/directives).
@@ -334,7 +337,11 @@ func (d *Doc) Render(lay Layout) *Rendered {
 			w.sels(o.Sels, 0, r)
 		} else {
 			f := d.Frags[idx]
-			w.raw("fragment " + f.Name + " on " + f.On)
+			if lay.FragSplit > 0 && lay.Mode != "single" {
+				w.raw(map[int]string{1: "fragment ", 2: "fragment # named below"}[lay.FragSplit] + w.nl + "                    " + f.Name + " on " + f.On)
+			} else {
+				w.raw("fragment " + f.Name + " on " + f.On)
+			}
 			w.dirs(f.Dirs)
 			w.raw(" ")
 			w.sels(f.Sels, 0, r)
